@@ -2,10 +2,16 @@
 
 Plain numpy / Python only: no photutils, no scipy.ndimage, no skimage.
 
-A *frame* is a sequence of parent types; parent k occupies tile k of a grid of
-TILE-shaped tiles (2 tiles per row, raster order), never touches the tile
-border, and so never touches another parent.  The input label array is built
-here (tile -> label by the *numbering*), not by ``detect_sources``.
+A *frame* is a sequence of tile contents; tile k of a grid of TILE-shaped tiles
+(2 tiles per row, raster order) holds either ONE parent (a parent type) or a
+*group* of TWO parents (a group type, see GROUP) whose minimal bounding boxes
+are not disjoint.  Nothing touches the tile border, so parents of different
+tiles never touch and have disjoint bounding boxes; the geometric relation of
+two parents (bounding boxes disjoint / mutually interlocking / one containing
+the other / segments sharing a border) is therefore an enumerated property of
+the frame.  The parents of a frame are numbered in tile order, inside a group
+in the order stated there.  The input label array is built here (parent ->
+label by the *numbering*), not by ``detect_sources``.
 """
 import numpy as np
 
@@ -47,7 +53,37 @@ NOISE_TYPES = ('N2',)      # 2-blend + a seed-generic sparse positive noise imag
 SPIKE_TYPES = tuple(SPIKE) + NOISE_TYPES
 # NOTE: new types are appended: TYPE_INDEX feeds the per-tile generator, existing scenes must keep their numbers
 TYPES = tuple(GAUSS) + PIXEL_TYPES + SPIKE_TYPES
-TYPE_INDEX = {t: i for i, t in enumerate(TYPES)}
+
+# "group" tiles: TWO parents in one tile whose minimal bounding boxes (the cutouts deblend_sources works on) are NOT
+# disjoint -- the cutout of one parent contains pixels that belong to the other one.  Elongated / non-convex sources
+# next to each other are ordinary (diagonal streaks, an arc around a compact source, a chain of sources that detection
+# cut into two segments).  Components are (amplitude, x0, y0, sigma_long, sigma_short, angle/deg of the long axis from +x
+# towards +y); parent p of a group is the set (image of its components > THRESH) -- for 'cut' groups the set
+# (image of all components > THRESH) is divided along the straight line (x - xc) + slope * (y - yc) = 0 into the
+# parent left of it (first) and right of it (second), which then SHARE A BORDER.  The stated relation is verified by
+# selftest/test_c06_schedules.py with bbox_relations() for several seeds and at the corners of the generic ranges.
+GROUP = {
+    # two parallel diagonal streaks (each a 2-blend along its long axis), separated by background:
+    # each bounding box contains pixels of the other parent (mutual interlock)
+    'X2': {'relation': 'interlock',
+           'parents': [[(50, 5.2, 5.2, 1.8, 0.9, 45.0), (42, 10.7, 10.7, 1.8, 0.9, 45.0)],
+                       [(46, 14.7, 5.2, 1.8, 0.9, 45.0), (38, 20.2, 10.7, 1.8, 0.9, 45.0)]]},
+    # an L-shaped 2-blend (one peak per arm) and a compact 2-blend in the empty quadrant of its bounding box: the box of
+    # the first parent contains the second parent completely, the box of the second contains nothing of the first (nested)
+    'L2': {'relation': 'nested',
+           'parents': [[(50, 12.0, 3.8, 3.4, 1.0, 0.0), (42, 4.2, 10.0, 2.3, 1.0, 90.0)],
+                       [(40, 12.4, 11.8, 1.2, 1.2, 0.0), (34, 17.4, 11.8, 1.2, 1.2, 0.0)]]},
+    # a chain of four peaks that the label array cuts along an oblique line between the second and the third peak into two
+    # 2-blends: the parents share a border (8- and 4-adjacent pixels) AND each bounding box contains pixels of the other
+    'A2': {'relation': 'abut',
+           'cut': (12.5, 8.0, 1.0),
+           'parents': [[(50, 5.0, 8.0, 1.3, 1.3, 0.0), (44, 9.8, 8.0, 1.3, 1.3, 0.0)],
+                       [(47, 15.2, 8.0, 1.3, 1.3, 0.0), (40, 20.0, 8.0, 1.3, 1.3, 0.0)]]},
+}
+GROUP_TYPES = tuple(GROUP)
+# NOTE: TYPE_INDEX feeds the per-tile generator: group types come after all parent types, new parent types would have to
+# be given explicit numbers so that existing scenes keep theirs
+TYPE_INDEX = {t: i for i, t in enumerate(TYPES + GROUP_TYPES)}
 
 
 def _gauss_tile(tp, rng):
@@ -102,8 +138,80 @@ def tile(tp, rng):
     return img, seg
 
 
+def _egauss(xx, yy, a, x0, y0, sl, ss, deg):
+    c, s = np.cos(np.deg2rad(deg)), np.sin(np.deg2rad(deg))
+    u = (xx - x0) * c + (yy - y0) * s
+    v = -(xx - x0) * s + (yy - y0) * c
+    return a * np.exp(-(u * u / (2 * sl * sl) + v * v / (2 * ss * ss)))
+
+
+def group_tile(tp, rng):
+    """-> (image of the tile, [mask of parent 0, mask of parent 1]); the masks are
+    disjoint, non-empty and do not touch the tile border."""
+    g = GROUP[tp]
+    yy, xx = np.mgrid[0:TILE[0], 0:TILE[1]].astype(float)
+    dx, dy = rng.uniform(-0.3, 0.3, size=2)       # generic sub-pixel offset of the whole group (seed)
+    imgs = []
+    for comps in g['parents']:
+        im = np.zeros(TILE)
+        for (a, x0, y0, sl, ss, deg) in comps:
+            a = a * rng.uniform(0.97, 1.03)       # generic amplitude (seed)
+            im += _egauss(xx, yy, a, x0 + dx, y0 + dy, sl, ss, deg)
+        imgs.append(im)
+    img = imgs[0] + imgs[1]
+    if 'cut' in g:
+        xc, yc, slope = g['cut']
+        left = (xx - xc - dx) + slope * (yy - yc - dy) < 0
+        body = img > THRESH
+        masks = [body & left, body & ~left]
+    else:
+        masks = [im > THRESH for im in imgs]
+    both = masks[0] | masks[1]
+    if (masks[0] & masks[1]).any() or not masks[0].any() or not masks[1].any():
+        raise AssertionError(f'group type {tp}: parents overlap or are empty')
+    if both[0].any() or both[-1].any() or both[:, 0].any() or both[:, -1].any():
+        raise AssertionError(f'group type {tp} touches its tile border')
+    return img, masks
+
+
+def parent_types(frame):
+    """One name per PARENT of the frame, in parent order: the parent type, or
+    'G/0', 'G/1' for the two parents of group type G."""
+    out = []
+    for tp in frame:
+        out += [f'{tp}/0', f'{tp}/1'] if tp in GROUP else [tp]
+    return out
+
+
+def nparents(frame):
+    return len(parent_types(frame))
+
+
+def bbox_relations(seg):
+    """Geometric relations between the segments of a label array, from the
+    pixels: -> {'box_contains': set of ordered pairs (b, a), a != b, such that the
+    minimal bounding box of label b contains at least one pixel of label a;
+    'adjacent': set of unordered pairs (a, b), a < b, that have 8-adjacent pixels}."""
+    seg = np.asarray(seg)
+    labs = [int(x) for x in np.unique(seg[seg != 0])]
+    box = set()
+    for b in labs:
+        ys, xs = np.nonzero(seg == b)
+        cut = seg[ys.min():ys.max() + 1, xs.min():xs.max() + 1]
+        box |= {(b, int(a)) for a in np.unique(cut) if a != 0 and a != b}
+    adj = set()
+    pad = np.pad(seg, 1)
+    h, w = seg.shape
+    for dy, dx in ((0, 1), (1, -1), (1, 0), (1, 1)):
+        p = pad[1:1 + h, 1:1 + w]
+        q = pad[1 + dy:1 + dy + h, 1 + dx:1 + dx + w]
+        m = (p != 0) & (q != 0) & (p != q)
+        adj |= {(int(min(a, b)), int(max(a, b))) for a, b in zip(p[m], q[m])}
+    return {'box_contains': box, 'adjacent': adj}
+
+
 def numbering(name, n):
-    """tile index -> label."""
+    """parent index -> label."""
     if name == 'consec':
         return [k + 1 for k in range(n)]
     if name == 'gaps':
@@ -119,25 +227,39 @@ def build(frame, numbering_name, variant, seed):
     """-> data (float ndarray), label array (int ndarray), labels per tile.
 
     variant: 'pos'     data as rendered (every segment minimum > 0)
-             'nonpos'  data - 1.5 (every segment minimum <= 0: 'exponential' falls back to 'linear')
-             'mixed'   data - 1.5 in odd tiles only
+             'nonpos'  data - 1.5 (every segment minimum <= 0: 'exponential' falls back to 'linear'); in a group tile
+                       each parent's pixels are shifted so that its minimum is -0.5
+             'mixed'   data - 1.5 for the parents of odd index only (whole tile; inside a group tile: that parent's pixels)
     (the Quantity representation is applied by the caller)."""
-    n = len(frame)
+    n = len(frame)                      # tiles
     nrows = (n + NCOLS - 1) // NCOLS
     ncols = min(n, NCOLS)
     shape = (nrows * TILE[0], ncols * TILE[1])
     data = np.zeros(shape)
     seg = np.zeros(shape, dtype=np.int64)
-    labs = numbering(numbering_name, n)
+    labs = numbering(numbering_name, nparents(frame))
+    pk = 0                              # parent index ('mixed': the parents of odd index are non-positive)
     for k, tp in enumerate(frame):
         rng = np.random.default_rng([int(seed), 7919, k] + [TYPE_INDEX[t] for t in frame])
-        img, m = tile(tp, rng)
         r, c = divmod(k, NCOLS)
         sl = (slice(r * TILE[0], (r + 1) * TILE[0]), slice(c * TILE[1], (c + 1) * TILE[1]))
-        if variant == 'nonpos' or (variant == 'mixed' and k % 2 == 1):
+        if tp in GROUP:
+            img, masks = group_tile(tp, rng)
+            data[sl] = img
+            for m in masks:
+                if variant == 'nonpos' or (variant == 'mixed' and pk % 2 == 1):
+                    # the tail of the other parent lifts the faintest pixels: shift this parent's pixels so that its
+                    # minimum is -0.5 (what "tile - 1.5" gives for a parent alone in its tile)
+                    data[sl][m] -= img[m].min() + 0.5
+                seg[sl][m] = labs[pk]
+                pk += 1
+            continue
+        img, m = tile(tp, rng)
+        if variant == 'nonpos' or (variant == 'mixed' and pk % 2 == 1):
             img = img - 1.5
         data[sl] = img
-        seg[sl][m] = labs[k]
+        seg[sl][m] = labs[pk]
+        pk += 1
     return data, seg, labs
 
 
